@@ -30,6 +30,101 @@ fn find_stmt<'a>(stmts: &'a [Stmt], id: Id) -> Option<&'a Stmt> {
     found
 }
 
+
+/// Patterns whose matches have pairwise different roots (one match per node).
+const CROSS_PATTERNS: &[(&str, &str)] = &[
+    ("(identifier) @x", "x"),
+    ("(expression_statement) @x", "x"),
+    ("(call) @x", "x"),
+    ("(assignment left: (identifier) @x)", "x"),
+    ("(function_definition name: (identifier) @x)", "x"),
+    ("(call function: (identifier) @x)", "x"),
+    ("(integer) @x", "x"),
+];
+const CROSS_DEFINERS: &[(&str, &str)] = &[("(module) @m", "m"), ("(function_definition) @m", "m"), ("(block) @m", "m"), ("(class_definition) @m", "m")];
+
+/// A conflict of one statement with itself across two matches: every match of a stanza reaches
+/// the same graph node / edge / syntax node through inherited scoped variables and gives it a
+/// value that depends on the match.  Returns the program and the conflicting statement's id.
+pub fn cross_match_scenario(t: &mut Tape) -> (GProg, Id, &'static str) {
+    let mut ids = Ids::default();
+    let mut items: Vec<Item> = vec![];
+    for name in ["sink", "sink2", "anchor"] {
+        items.push(Item::Inherit { name: name.to_string() });
+    }
+    let cap = |ids: &mut Ids, name: &str| Expr::Capture { id: ids.next(), name: name.to_string() };
+    let cs = |ids: &mut Ids, capture: &str, name: &str| {
+        let c0 = Expr::Capture { id: ids.next(), name: capture.to_string() };
+        Expr::Scoped { id: ids.next(), scope: Box::new(c0), name: name.to_string() }
+    };
+    // definers: the module always, sometimes nearer ancestors as well
+    let mut stanzas: Vec<Item> = vec![];
+    let ndef = 1 + t.weighted(&[5, 3, 1]);
+    for k in 0..ndef {
+        let (pattern, c) = if k == 0 { CROSS_DEFINERS[0] } else { CROSS_DEFINERS[1 + t.choose(CROSS_DEFINERS.len() - 1)] };
+        if k > 0 && stanzas.iter().any(|s| matches!(s, Item::Stanza(st) if st.query == pattern)) {
+            continue;
+        }
+        let mut body = vec![];
+        for name in ["sink", "sink2"] {
+            body.push(Stmt::Node { id: ids.next(), var: VarRef::Scoped { id: ids.next(), scope: cap(&mut ids, c), name: name.to_string() } });
+        }
+        body.push(Stmt::Let { id: ids.next(), var: VarRef::Scoped { id: ids.next(), scope: cap(&mut ids, c), name: "anchor".into() }, value: cap(&mut ids, c) });
+        stanzas.push(Item::Stanza(Stanza { id: ids.next(), query: pattern.to_string(), captures: vec![Cap { name: c.to_string(), quant: Quant::One }], body, pool: usize::MAX }));
+    }
+    // bystander stanza
+    if t.chance(1, 2) {
+        let body = vec![
+            Stmt::Node { id: ids.next(), var: VarRef::Scoped { id: ids.next(), scope: cap(&mut ids, "id"), name: "n".into() } },
+            Stmt::AttrNode { id: ids.next(), node: cs(&mut ids, "id", "n"), attrs: vec![Attr { name: "text".into(), value: Some(Expr::Call { func: "source-text".into(), args: vec![cap(&mut ids, "id")] }) }] },
+        ];
+        stanzas.push(Item::Stanza(Stanza { id: ids.next(), query: "(identifier) @id".into(), captures: vec![Cap { name: "id".into(), quant: Quant::One }], body, pool: usize::MAX }));
+    }
+    let (pattern, c) = CROSS_PATTERNS[t.choose(CROSS_PATTERNS.len())];
+    let value = match t.choose(4) {
+        0 => Expr::Call { func: "source-text".into(), args: vec![cap(&mut ids, c)] },
+        1 => Expr::Call { func: "start-row".into(), args: vec![cap(&mut ids, c)] },
+        2 => Expr::Call { func: "start-column".into(), args: vec![cap(&mut ids, c)] },
+        _ => Expr::Call { func: "format".into(), args: vec![Expr::Str("{}:{}".into()), Expr::Call { func: "start-row".into(), args: vec![cap(&mut ids, c)] }, Expr::Call { func: "start-column".into(), args: vec![cap(&mut ids, c)] }] },
+    };
+    let mut body: Vec<Stmt> = vec![];
+    let kind;
+    let fault_id;
+    let conflicting = match t.choose(3) {
+        0 => {
+            kind = "cross-match-attr-conflict";
+            fault_id = ids.next();
+            let node = cs(&mut ids, c, "sink");
+            Stmt::AttrNode { id: fault_id, node, attrs: vec![Attr { name: "k".into(), value: Some(value) }] }
+        }
+        1 => {
+            kind = "cross-match-edge-attr-conflict";
+            let (a, b) = (cs(&mut ids, c, "sink"), cs(&mut ids, c, "sink2"));
+            body.push(Stmt::Edge { id: ids.next(), src: a, dst: b });
+            fault_id = ids.next();
+            let (a, b) = (cs(&mut ids, c, "sink"), cs(&mut ids, c, "sink2"));
+            Stmt::AttrEdge { id: fault_id, src: a, dst: b, attrs: vec![Attr { name: "k".into(), value: Some(value) }] }
+        }
+        _ => {
+            kind = "cross-match-duplicate-scoped";
+            body.push(Stmt::Let { id: ids.next(), var: VarRef::Plain { id: ids.next(), name: "a".into() }, value: cs(&mut ids, c, "anchor") });
+            fault_id = ids.next();
+            Stmt::Let { id: fault_id, var: VarRef::Scoped { id: ids.next(), scope: Expr::Var { id: ids.next(), name: "a".into() }, name: "dup".into() }, value }
+        }
+    };
+    // at the top of the block or nested in it
+    let wrapped = match t.weighted(&[3, 2, 2]) {
+        0 => conflicting,
+        1 => Stmt::If { id: ids.next(), arms: vec![IfArm { id: ids.next(), conds: vec![Cond::Bool(ids.next(), Expr::True)], body: vec![conflicting] }] },
+        _ => Stmt::For { id: ids.next(), var_id: ids.next(), var: "z".into(), value: Expr::List(vec![Expr::Int(1, 0)]), body: vec![conflicting] },
+    };
+    body.push(wrapped);
+    let reader = Item::Stanza(Stanza { id: ids.next(), query: pattern.to_string(), captures: vec![Cap { name: c.to_string(), quant: Quant::One }], body, pool: usize::MAX });
+    stanzas.push(reader);
+    items.extend(stanzas);
+    (GProg { items }, fault_id, kind)
+}
+
 pub fn case(tape: &[u32]) -> CaseOutcome {
     let (aux, main) = split_tape(tape);
     let mut t = Tape::new(&aux);
@@ -39,7 +134,16 @@ pub fn case(tape: &[u32]) -> CaseOutcome {
     cfg.risk = 0;
     cfg.prints = false;
     cfg.max_stanzas = 5;
-    let program = make_program(&mut gt, &cfg);
+    let cross = t.chance(1, 6);
+    let program = if cross {
+        let (prog, fault_id, kind) = cross_match_scenario(&mut gt);
+        let printed = if t.chance(1, 2) { print_canonical(&prog) } else { print_random(&prog, &mut gt) };
+        let mut features = BTreeSet::new();
+        features.insert("cross-match-scenario");
+        Program { gen: crate::gen::Generated { prog, globals: Default::default(), features, fault: Some(kind), fault_id: Some(fault_id), fault_pair: Some((fault_id, fault_id)) }, printed }
+    } else {
+        make_program(&mut gt, &cfg)
+    };
     let dsl = &program.printed.text;
     let locs = &program.printed.locs;
     // trees with many matches
@@ -175,7 +279,7 @@ pub fn case(tape: &[u32]) -> CaseOutcome {
         }
         let _ = &roots;
         // conflicts found during lazy evaluation name both statements
-        if lazy && fault_identified && matches!(program.gen.fault, Some("attr-conflict") | Some("edge-attr-conflict") | Some("duplicate-scoped")) {
+        if lazy && fault_identified && (cross || matches!(program.gen.fault, Some("attr-conflict") | Some("edge-attr-conflict") | Some("duplicate-scoped"))) {
             // both contexts: exactly the two conflicting statements
             if let (Some((first, second)), 2) = (program.gen.fault_pair, ctxs.len()) {
                 let want: BTreeSet<(usize, usize)> = [locs[&first], locs[&second]].iter().map(|l| (l.row, l.col)).collect();
@@ -198,6 +302,14 @@ pub fn case(tape: &[u32]) -> CaseOutcome {
                 let b = (ctxs[1].statement_location.row, ctxs[1].statement_location.column);
                 if a == b && matches!(program.gen.fault, Some("attr-conflict") | Some("edge-attr-conflict")) {
                     return CaseOutcome::Fail(Failure::new("C20:lazy:conflict-names-same-statement-twice", format!("both contexts of the conflict cite the same statement: {}", rendered), d(json!({}))));
+                }
+                // one statement in conflict with itself on two matches: both matches are named
+                if cross {
+                    let m = |c: &StmtCtx| (c.node_kind.clone(), c.source_location.row, c.source_location.column);
+                    if m(&ctxs[0]) == m(&ctxs[1]) {
+                        return CaseOutcome::Fail(Failure::new("C20:lazy:conflict-names-one-match-twice", format!("the statement conflicts with itself on two different matches, both contexts cite the same matched node: {}", rendered), d(json!({}))));
+                    }
+                    labels.push("lazy:cross-match-conflict-names-both-matches".into());
                 }
                 labels.push("lazy:two-sided-conflict-context".into());
             }
